@@ -141,6 +141,11 @@ def parse_template(path):
         elif s.startswith("//@endloop "):
             k = int(s.split()[1])
             sec = cur.setdefault("endloops", {}).setdefault(k, [])
+        elif s.startswith("//@loopstart "):
+            # lines placed at the very beginning of the body of loop k (facts that must not depend on
+            # how the statements of the body are shaped)
+            k = int(s.split()[1])
+            sec = cur.setdefault("loopstarts", {}).setdefault(k, [])
         elif s.startswith("//@loop "):
             k = int(s.split()[1])
             sec = cur["loops"].setdefault(k, [])
@@ -181,6 +186,53 @@ def fill_fn(spec, canary, canary_ids, log):
         loc = X.find_fn(src, spec["name"], spec["within"])
     except X.ExtractError as e:
         raise Undecided("lost anchor: %s" % e)
+    # Name census: the contract is about *the* function of this name that callers reach.  A further
+    # definition of the same name anywhere in the crate (an inherent method shadowing a trait method,
+    # a trait-impl override, a same-named helper in another module) may change what runs without
+    # changing the extracted text: undecided until the census (contracts/fn_census.json, written by
+    # tools_census.py on a tree where the resolution was checked by hand) is renewed.
+    census_path = os.path.join(VERIF, "contracts", "fn_census.json")
+    if os.path.exists(census_path):
+        import glob as _glob
+        want = json.load(open(census_path)).get(spec["name"])
+        have = {}
+        for f2 in sorted(_glob.glob(os.path.join(SRC, "*.rs"))):
+            m2 = X.mask(open(f2).read())
+            c = len([m for m in re.finditer(r"\bfn\s+%s\b" % re.escape(spec["name"]), m2) if not X._in_test_mod(m2, m.start())])
+            if c:
+                have[os.path.basename(f2)] = c
+        if want is None:
+            raise Undecided("fn %s is not in contracts/fn_census.json (run tools_census.py on a checked tree)" % spec["name"])
+        extra = {f: c for f, c in have.items() if c > want.get(f, 0)}
+        if extra and not os.environ.get("VERIF_CENSUS_WRITE"):
+            log.setdefault("dispatch", []).append("new definition(s) of fn %s: %s" % (spec["name"], extra))
+            log["census_extra"] = True
+    # Trait dispatch: a default method of `trait T`, verified at Self := X, is the code that runs only
+    # if no `impl T for X` overrides it.  If one does, the override is extracted instead (the contract
+    # stays the same; hints written for the default body will usually no longer fit -> UNDECIDED).
+    mt = re.search(r"\btrait\s+(\w+)", spec["within"] or "")
+    selfty = [r.split(" ", 1)[1].strip() for r in spec["rules"] if r.lstrip("?").startswith("Self ")]
+    if mt and selfty:
+        import glob
+        ty = re.escape(selfty[0].split("<")[0])
+        for f2 in sorted(glob.glob(os.path.join(SRC, "*.rs"))):
+            s2 = open(f2).read()
+            within2 = r"impl(?:<[^>]*>)?\s+%s\s+for\s+%s\b" % (re.escape(mt.group(1)), ty)
+            if not re.search(within2, X.mask(s2)):
+                continue
+            try:
+                loc2 = X.find_fn(s2, spec["name"], within2)
+            except X.ExtractError:
+                continue
+            src, loc, path = s2, loc2, f2
+            spec = dict(spec, file=os.path.basename(f2))
+            log.setdefault("dispatch", []).append("fn %s: `impl %s for %s` in %s overrides the trait's default method; the override is the verified text"
+                                                  % (spec["name"], mt.group(1), selfty[0], os.path.basename(f2)))
+            log["census_extra"] = False
+            break
+    if log.pop("census_extra", False):
+        raise Undecided("a further definition of fn %s appeared in the crate (%s): which one callers reach is not established"
+                        % (spec["name"], "; ".join(log.get("dispatch", [])[-1:])))
     sig = src[loc["fn_kw"]:loc["body_open"]]
     body = src[loc["body_open"]:loc["body_close"] + 1]
     orig_body = body
@@ -220,6 +272,7 @@ def fill_fn(spec, canary, canary_ids, log):
     if spec.get("isolation"):
         tpl_text = "\n".join(spec["spec"] + [l for v in spec["loops"].values() for l in v]
                              + [l for v in spec.get("endloops", {}).values() for l in v]
+                             + [l for v in spec.get("loopstarts", {}).values() for l in v]
                              + [l for a in spec["before"] + spec["after"] for l in a["lines"]]
                              + [a["rx"] for a in spec["before"] + spec["after"]])
         body, inl = R.inline_fresh_lets(sig, body, set(re.findall(r"\b[A-Za-z_]\w*\b", tpl_text)))
@@ -248,6 +301,12 @@ def fill_fn(spec, canary, canary_ids, log):
                             % (spec["name"], len(lps), k))
         close = X.match_brace(X.mask(body), lps[k - 1][1])
         inserts.append((close, "\n" + "\n".join(lines) + "\n"))
+    for k, lines in spec.get("loopstarts", {}).items():
+        if k < 1 or k > len(lps):
+            raise Undecided("lost anchor: fn %s has %d loops, contract names loopstart %d"
+                            % (spec["name"], len(lps), k))
+        # just after the opening brace; sorts after the invariants spliced at the same brace
+        inserts.append((lps[k - 1][1] + 1, "\n" + "\n".join(lines) + "\n"))
     # 4. proof blocks at statement anchors ----------------------------------------------------
     masked = X.mask(body)
 
